@@ -213,134 +213,6 @@ def gen_doc(rng):
     return doc, prof.flags()
 
 
-# ----------------------------------------------------------------------------- model side
-
-class SingRecorder:
-    """wraps the real `English.singularize` so that the calls the generator makes (in its order) become the
-    model's table; also remembers every (word -> result) of the whole run: a word that ever gets two different
-    results shows that the function depends on history"""
-
-    def __init__(self):
-        from dataclass_wizard.wizard_cli import schema
-        self.schema = schema
-        self.orig = schema.English.__dict__['singularize']
-        self.real = schema.English.singularize
-        self.calls = []
-        self.ever = {}
-        self.conflicts = []
-
-    def install(self):
-        rec = self
-
-        def singularize(word):
-            r = rec.real(word)
-            rec.calls.append((word, r))
-            return r
-        self.schema.English.singularize = staticmethod(singularize)
-
-    def uninstall(self):
-        self.schema.English.singularize = self.orig
-
-    def take(self):
-        calls, self.calls = self.calls, []
-        for w, r in calls:
-            if w in self.ever and self.ever[w] != r:
-                self.conflicts.append((w, self.ever[w], r))
-            self.ever.setdefault(w, r)
-        return calls
-
-
-def doc_strings(v, out):
-    if isinstance(v, str):
-        out.add(v)
-    elif isinstance(v, dict):
-        for x in v.values():
-            doc_strings(x, out)
-    elif isinstance(v, list):
-        for x in v:
-            doc_strings(x, out)
-    return out
-
-
-def _ok(f, *a):
-    try:
-        f(*a)
-        return True
-    except (TypeError, ValueError):
-        return False
-
-
-def std_tables(doc, sing_calls):
-    """the stdlib answers the model needs, computed with the stdlib itself"""
-    S = sorted(doc_strings(doc, set()))
-    z = lambda s: s.replace('Z', '+00:00', 1)
-    sing = {}
-    for w, r in sing_calls:
-        sing.setdefault(w, r)
-    return {
-        'known': S,
-        'date': [s for s in S if _ok(dt.date.fromisoformat, s)],
-        'time': [s for s in S if _ok(dt.time.fromisoformat, z(s))],
-        'datetime': [s for s in S if _ok(dt.datetime.fromisoformat, z(s))],
-        'numeric': [s for s in S if s.isnumeric()],
-        'float': [s for s in S if _ok(float, s)],
-        'lower': [[s, s.lower()] for s in S],
-        'singularize': [[w, r] for w, r in sing.items()],
-    }
-
-
-def keys_model_domain(doc):
-    """the string model (DW/Model/Strings.lean) is ASCII-cased: keys with cased non-ASCII letters are outside it"""
-    for _p, o in walk_objects(doc):
-        for k in o:
-            for c in k:
-                if ord(c) > 127 and (c.lower() != c or c.upper() != c):
-                    return False
-    return True
-
-
-def impl_canon(src):
-    lines = scan_lines(src)
-    out = {'imports': lines['imports'], 'lines': lines['classes'], 'ast': None}
-    plain = all(_plain_ident(c[0]) and all(_plain_ident(f) for f, _a in c[2]) for c in lines['classes'])
-    if plain:
-        try:
-            a = scan_ast(src)
-        except SyntaxError:
-            a = None
-        if a is not None:
-            out['ast'] = [[c[0], c[1], c[2]] for c in a['classes']]
-            out['ast_imports'] = a['imports']
-            out['all_dataclass'] = all(c[3] for c in a['classes'])
-    return out
-
-
-def _plain_ident(s):
-    return s.isascii() and s.isidentifier() and not keyword.iskeyword(s)
-
-
-def model_canon(r, impl):
-    if 'ok' not in r:
-        return r
-    m = r['ok']
-    out = {'imports': m['imports'],
-           'lines': [[c['name'], c['root'], [[f[0], f[2]] for f in c['fields']]] for c in m['classes']],
-           'ast': None}
-    if impl.get('ast') is not None:
-        out['ast'] = [[c['name'], c['root'], [[f[0], f[1]] for f in c['fields']]] for c in m['classes']]
-        out['ast_imports'] = m['imports']
-        out['all_dataclass'] = True
-    return out
-
-
-def probe_dedup():
-    """is the `o in self` test of TypeContainer.append structural (the dataclass-generated __eq__)?  Witness:
-    the third element's class differs from the first only below the first level."""
-    doc = [{"x": {"p": {"q": 1}}}, {"x": 5}, {"x": {"p": {"r": 1}}}]
-    src = generate(json.dumps(doc), False, False)
-    return '    r: int' not in src
-
-
 # ----------------------------------------------------------------------------- running the real generator
 
 def generate(doc_text, experimental, force_strings):
@@ -430,11 +302,12 @@ def keys_have_fields(docv, v, path, missing):
             missing.append((path, '<no class instance here>'))
             return
         names = {f.name for f in dataclasses.fields(v)}
+        snakes = [to_snake_case(k) for k in docv]
         for k, x in docv.items():
             f = to_snake_case(k)
             if f not in names:
                 missing.append((path, k))
-            else:
+            elif snakes.count(f) == 1:      # several keys of one object sharing a field: the field holds the last value
                 keys_have_fields(x, getattr(v, f), path + [k], missing)
     elif isinstance(docv, list):
         if isinstance(v, list) and len(v) == len(docv):
@@ -548,42 +421,55 @@ def walk_objects(v, path=()):
             yield from walk_objects(x, path + (i,))
 
 
-def doc_shapes(doc, force_strings):
-    """shape facts of the document that known findings are keyed on"""
+def _snake(k):
     from dataclass_wizard.utils.string_conv import to_snake_case
-    shapes = set()
-    for _p, o in walk_objects(doc):
-        for k in o:
-            f = to_snake_case(k)
-            if not f.isidentifier() or keyword.iskeyword(f):
-                shapes.add('key-not-identifier')
-            elif not _nfkc_stable(f):
-                shapes.add('key-not-nfkc')
+    return to_snake_case(k)
 
-    def strings(v):
-        if isinstance(v, str):
-            yield v
-        elif isinstance(v, dict):
-            for x in v.values():
-                yield from strings(x)
-        elif isinstance(v, list):
-            for x in v:
-                yield from strings(x)
+
+def _pascal(k):
+    from dataclass_wizard.utils.string_conv import to_pascal_case
+    return to_pascal_case(k)
+
+
+def key_shapes(doc):
+    """keys of the document whose derived field name (to_snake_case) / class name (to_pascal_case, only when the value
+    makes a class) is not a Python identifier, or is one that the parser rewrites (NFKC)"""
+    bad, nfkc = set(), set()
+    for _p, o in walk_objects(doc):
+        for k, v in o.items():
+            f = _snake(k)
+            if not f.isidentifier() or keyword.iskeyword(f):
+                bad.add(k)
+            elif not _nfkc_stable(f):
+                nfkc.add(k)
+            if isinstance(v, dict):
+                c = _pascal(k)
+                if not c.isidentifier() or keyword.iskeyword(c):
+                    bad.add(k)
+            elif isinstance(v, list) and any(isinstance(e, dict) for e in v):
+                if not k.replace('-', '_').replace(' ', '_').strip('_').replace('_', 'a').isalnum() or k[:1].isdigit():
+                    bad.add(k)
+    return bad, nfkc
+
+
+def string_shapes(doc, force_strings):
+    out = set()
     if force_strings:
-        for s in strings(doc):
+        for s in doc_strings(doc, set()):
             if ':' not in s and s.isnumeric():
                 try:
                     int(s)
                 except ValueError:
-                    shapes.add('numeric-not-int')
-    return shapes
+                    out.add('numeric-not-int')
+    return out
 
 
-def groups_missing_or_mixed(doc):
-    """merged sibling groups (elements of one list, and recursively the values of one key across a group):
-    does some key lack in a sibling ('missing'); do the non-null values of one position mix object / list / scalar
-    ('mixed'); does a list directly hold a list next to anything merged ('list-in-list')"""
-    from dataclass_wizard.utils.string_conv import to_snake_case
+def group_shapes(doc):
+    """facts about the merged sibling groups (the elements of one list, and recursively the values one key takes across
+    a group): 'missing-key' a key is absent from a sibling object; 'mixed-object' the non-null values at one position are
+    objects and something else; 'mixed-list' lists and something else; 'snake-collision' two keys of one object share a
+    field name; 'null-in-later-list' a list merged into an earlier sibling list holds a null that the first one lacks
+    (or lists nested in lists are merged)"""
     found = set()
 
     def kind(v):
@@ -591,41 +477,140 @@ def groups_missing_or_mixed(doc):
 
     def group(vals):
         kinds = {kind(v) for v in vals} - {'n'}
-        if len(kinds) > 1 and kinds & {'o', 'l'}:
-            if 'o' in kinds:
-                found.add('mixed-object')
-            if 'l' in kinds and 's' in kinds or kinds == {'o', 'l'}:
-                found.add('mixed-list')
+        if len(kinds) > 1 and 'o' in kinds:
+            found.add('mixed-object')
+        if len(kinds) > 1 and 'l' in kinds:
+            found.add('mixed-list')
         objs = [v for v in vals if isinstance(v, dict)]
         lists = [v for v in vals if isinstance(v, list)]
-        if objs and 'n' in {kind(v) for v in vals}:
-            found.add('null-object')
         if objs:
-            keys = []
+            fields = []
             for o in objs:
-                seen = {}
+                seen = set()
                 for k in o:
-                    f = to_snake_case(k)
+                    f = _snake(k)
                     if f in seen:
                         found.add('snake-collision')
-                    seen[f] = k
-                    if f not in keys:
-                        keys.append(f)
-            for f in keys:
-                vs = [v for o in objs for k, v in o.items() if to_snake_case(k) == f]
-                if any(all(to_snake_case(k) != f for k in o) for o in objs):
+                    seen.add(f)
+                    if f not in fields:
+                        fields.append(f)
+            for f in fields:
+                if any(all(_snake(k) != f for k in o) for o in objs):
                     found.add('missing-key')
-                group(vs)
+                group([v for o in objs for k, v in o.items() if _snake(k) == f])
         if lists:
+            if len(lists) > 1 and None not in lists[0] and any(None in l for l in lists[1:]):
+                found.add('null-in-later-list')
             elems = [e for l in lists for e in l]
             if any(isinstance(e, list) for e in elems):
                 found.add('list-in-list')
+                if len(lists) > 1 or sum(isinstance(e, list) for e in elems) > 1:
+                    if any(None in e for e in elems if isinstance(e, list)):
+                        found.add('null-in-later-list')
             group(elems)
     group([doc])
     return found
 
 
-# ----------------------------------------------------------------------------- the oracle for one (doc, flags)
+def all_shapes(doc, force_strings):
+    bad, nfkc = key_shapes(doc)
+    sh = group_shapes(doc) | string_shapes(doc, force_strings)
+    if bad:
+        sh.add('key-not-identifier')
+    if nfkc:
+        sh.add('key-not-nfkc')
+    return sh, bad, nfkc
+
+
+# ----------------------------------------------------------------------------- attribution to known-finding classes
+
+def union_nodes(tree, out):
+    """members of every Union[...] / X | Y node of an annotation tree"""
+    if not isinstance(tree, list) or not tree:
+        return out
+    if tree[0] == 'sub':
+        if tree[1] == ['name', 'Union']:
+            out.append(tree[2])
+        elif tree[1] == ['name', 'Optional'] and tree[2] and tree[2][0][0] != 'sub':
+            pass
+        for a in tree[2]:
+            union_nodes(a, out)
+    elif tree[0] == 'or':
+        out.append([m for m in tree[1] if m != ['none']])
+        for a in tree[1]:
+            union_nodes(a, out)
+    return out
+
+
+def field_annotation(src, class_name, field_name):
+    try:
+        a = scan_ast(src)
+    except SyntaxError:
+        return None, set()
+    names = {c[0] for c in a['classes']}
+    for c in a['classes']:
+        if c[0] == class_name:
+            for f, t in c[2]:
+                if f == field_name:
+                    return t, names
+    return None, names
+
+
+def attribute(kind, exc, doc, src, diag, shapes, bad_keys, nfkc_keys, offending=None):
+    """known-finding key for a failure, or None.  A key is given only when the document has the finding's shape AND the
+    symptom is the one that shape produces."""
+    msg = str(exc) if exc is not None else ''
+    name = type(exc).__name__ if exc is not None else ''
+    bad_names = {_snake(k) for k in bad_keys} | {_pascal(k) for k in bad_keys}
+    if kind in ('gen:syntax',):
+        return 'gs-key-not-identifier' if bad_keys and (diag['bad_field'] or diag['bad_class']) else None
+    if diag['dup_class']:
+        return 'gs-duplicate-class-name'
+    if diag['shadow']:
+        return 'gs-class-shadows-import'
+    if kind == 'gen:import':
+        return 'gs-key-not-identifier' if bad_keys and (diag['bad_field'] or diag['bad_class']) else None
+    if kind == 'gen:fields':
+        keys = {k for _p, k in (offending or [])}
+        if keys and keys <= set(bad_keys):
+            return 'gs-key-not-identifier'
+        if keys and keys <= set(nfkc_keys):
+            return 'gs-key-nfkc-normalised'
+        return None
+    if kind == 'gen:load':
+        if name == 'MissingFields':
+            missing = set(getattr(exc, 'missing_fields', None) or [])
+            import unicodedata
+            if nfkc_keys and missing & {unicodedata.normalize('NFKC', _snake(k)) for k in nfkc_keys}:
+                return 'gs-key-nfkc-normalised'
+            if bad_keys:
+                return 'gs-key-not-identifier'
+            if 'missing-key' in shapes:
+                return 'gs-missing-key-required'
+            return None
+        if bad_keys and name in ('UnknownJSONKey', 'UnknownKeysError', 'AttributeError', 'NameError'):
+            return 'gs-key-not-identifier'
+        cls_name, fld = getattr(exc, 'class_name', None), getattr(exc, 'field_name', None)
+        if 'not in any of Union types' in msg and cls_name and fld:
+            if getattr(exc, 'obj', 0) is None and 'null-in-later-list' in shapes:
+                return 'gs-null-list-element-merge'
+            tree, class_names = field_annotation(src, cls_name, fld)
+            for members in union_nodes(tree, []):
+                if any(m[0] == 'ref' or (m[0] == 'name' and m[1] in class_names) for m in members):
+                    if 'mixed-object' in shapes or 'snake-collision' in shapes:
+                        return 'gs-union-with-class'
+            for members in union_nodes(tree, []):
+                if len(members) > 1 and ['name', 'str'] not in members and isinstance(getattr(exc, 'obj', None), str):
+                    return 'gs-union-of-converted-strings'
+            return None
+        if 'numeric-not-int' in shapes and 'invalid literal for int()' in msg:
+            return 'gs-force-strings-isnumeric'
+        if 'null-in-later-list' in shapes and (name == 'MissingData' or 'NoneType' in msg or 'value=None' in msg):
+            return 'gs-null-list-element-merge'
+        if ('mixed-object' in shapes or 'mixed-list' in shapes) and name in ('ParseError', 'TypeError', 'AttributeError', 'MissingData'):
+            return 'gs-union-with-class' if 'mixed-object' in shapes else None
+    return None
+
 
 def _fail(ctx, kind, case, what, key=None, detail=None):
     """ctx.fail, keeping at most three recorded instances of one attributed class (the rest are counted), so that
@@ -637,13 +622,14 @@ def _fail(ctx, kind, case, what, key=None, detail=None):
     ctx.fail(kind, case, what, key=key, detail=detail)
 
 
+# ----------------------------------------------------------------------------- the oracle for one (doc, flags)
+
 def oracle(ctx, tm, case, doc, doc_text, experimental, force_strings):
-    """returns (src or None).  Records failures of the property on the implementation."""
-    kind = 'gen'
+    """The property stated on the implementation.  Returns the generated source (None when generation raised)."""
     try:
         src = generate(doc_text, experimental, force_strings)
     except Exception as e:
-        _fail(ctx, kind, case, f'generator raised {type(e).__name__}: {e}'[:300], key=None)
+        _fail(ctx, 'gen', case, f'generator raised {type(e).__name__}: {e}'[:300])
         return None
     try:
         src2 = generate(doc_text, experimental, force_strings)
@@ -651,40 +637,40 @@ def oracle(ctx, tm, case, doc, doc_text, experimental, force_strings):
         src2 = f'<raised {e!r}>'
     if src2 != src:
         _fail(ctx, 'gen:deterministic', case, 'two generations of the same document in one process differ',
-                 detail=dict(first=src[:2000], second=src2[:2000]))
-    shapes = doc_shapes(doc, force_strings) | groups_missing_or_mixed(doc)
+              detail=dict(first=src[:2000], second=src2[:2000]))
+    shapes, bad_keys, nfkc_keys = all_shapes(doc, force_strings)
     scan = scan_lines(src)
     diag = names_diag(scan)
+    det = dict(src=src[:3000], diag=diag, shapes=sorted(shapes))
+
+    def att(kind, exc=None, offending=None):
+        return attribute(kind, exc, doc, src, diag, shapes, bad_keys, nfkc_keys, offending)
     # ---- valid Python that imports
     try:
         compile(src, '<generated>', 'exec')
     except SyntaxError as e:
-        key = 'gs-key-not-identifier' if (diag['bad_field'] or diag['bad_class']) and 'key-not-identifier' in shapes else None
-        _fail(ctx, 'gen:syntax', case, f'generated source is not valid Python: {e.msg} (line {e.lineno}: {(e.text or "").strip()[:80]!r})',
-                 key=key, detail=dict(src=src[:3000], diag=diag))
+        _fail(ctx, 'gen:syntax', case, f'generated source is not valid Python: {e.msg} (line {e.lineno}: '
+              f'{(e.text or "").strip()[:80]!r})', key=att('gen:syntax'), detail=det)
         return src
     try:
         mod = tm.load(src)
     except BaseException as e:
         _fail(ctx, 'gen:import', case, f'importing the generated module raised {type(e).__name__}: {e}'[:300],
-                 key=None, detail=dict(src=src[:3000], diag=diag))
+              key=att('gen:import', e), detail=det)
         return src
     roots = root_class(mod)
     elems = [doc] if isinstance(doc, dict) else [e for e in doc if isinstance(e, dict)]
     if not roots:
         if elems:
-            _fail(ctx, 'gen:root', case, 'no JSONWizard root class in the generated module', detail=dict(src=src[:3000]))
+            _fail(ctx, 'gen:root', case, 'no JSONWizard root class in the generated module', key=att('gen:root'), detail=det)
         return src
-    if len(roots) > 1 or diag['dup_class'] or diag['shadow']:
-        pass
     root = roots[0]
     for idx, el in enumerate(elems):
         try:
             inst = root.from_dict(json.loads(json.dumps(el)))
         except Exception as e:
-            key = attribute_load_failure(e, diag, shapes)
             _fail(ctx, 'gen:load', case, f'{root.__name__}.from_dict(source element {idx}) raised {type(e).__name__}: '
-                     + str(e).replace('\n', ' ')[:260], key=key, detail=dict(src=src[:3000], element=el, diag=diag, shapes=sorted(shapes)))
+                  + str(e).replace('\n', ' ')[:260], key=att('gen:load', e), detail=dict(det, element=el))
             continue
         try:
             ok = type_ok(inst, root, mod)
@@ -692,44 +678,394 @@ def oracle(ctx, tm, case, doc, doc_text, experimental, force_strings):
             ok = False
             ctx.notes.setdefault('type_ok_errors', []).append(repr(e)[:200])
         if not ok:
-            key = 'gs-duplicate-class-name' if diag['dup_class'] else None
-            _fail(ctx, 'gen:types', case, f'loaded values do not have the inferred types: {inst!r}'[:400], key=key,
-                     detail=dict(src=src[:3000], element=el))
+            _fail(ctx, 'gen:types', case, f'loaded values do not have the inferred types: {inst!r}'[:400],
+                  key=att('gen:types'), detail=dict(det, element=el))
         missing = []
         keys_have_fields(el, inst, [], missing)
         if missing:
-            key = 'gs-duplicate-class-name' if diag['dup_class'] else None
-            _fail(ctx, 'gen:fields', case, f'keys without a field in the loaded classes: {missing[:4]!r}', key=key,
-                     detail=dict(src=src[:3000], element=el))
+            _fail(ctx, 'gen:fields', case, f'keys without a field in the loaded classes: {missing[:4]!r}',
+                  key=att('gen:fields', None, missing), detail=dict(det, element=el))
     return src
 
 
-def attribute_load_failure(e, diag, shapes):
-    n = type(e).__name__
-    msg = str(e)
-    if diag['dup_class']:
-        return 'gs-duplicate-class-name'
-    if diag['shadow']:
-        return 'gs-class-shadows-import'
-    if n == 'MissingFields' and 'missing-key' in shapes:
-        return 'gs-missing-key-required'
-    if 'mixed-object' in shapes and ('not in any of Union types' in msg or n in ('ParseError', 'TypeError', 'AttributeError')):
-        return 'gs-union-with-class'
-    if 'numeric-not-int' in shapes and 'invalid literal for int' in msg:
-        return 'gs-force-strings-isnumeric'
-    return None
+# ----------------------------------------------------------------------------- model side
+
+class SingRecorder:
+    """wraps the real `English.singularize` so that the calls the generator makes (in its order) become the
+    model's table; also remembers every (word -> result) of the whole run: a word that ever gets two different
+    results shows that the function depends on history"""
+
+    def __init__(self):
+        from dataclass_wizard.wizard_cli import schema
+        self.schema = schema
+        self.orig = schema.English.__dict__['singularize']
+        self.real = schema.English.singularize
+        self.calls = []
+        self.ever = {}
+        self.conflicts = []
+
+    def install(self):
+        rec = self
+
+        def singularize(word):
+            r = rec.real(word)
+            rec.calls.append((word, r))
+            return r
+        self.schema.English.singularize = staticmethod(singularize)
+
+    def uninstall(self):
+        self.schema.English.singularize = self.orig
+
+    def take(self):
+        calls, self.calls = self.calls, []
+        for w, r in calls:
+            if w in self.ever and self.ever[w] != r:
+                self.conflicts.append((w, self.ever[w], r))
+            self.ever.setdefault(w, r)
+        return calls
+
+
+def doc_strings(v, out):
+    if isinstance(v, str):
+        out.add(v)
+    elif isinstance(v, dict):
+        for x in v.values():
+            doc_strings(x, out)
+    elif isinstance(v, list):
+        for x in v:
+            doc_strings(x, out)
+    return out
+
+
+def _ok(f, *a):
+    try:
+        f(*a)
+        return True
+    except (TypeError, ValueError):
+        return False
+
+
+def std_tables(doc, sing_calls):
+    """the stdlib answers the model needs, computed with the stdlib itself; `singularize` from the recorded calls"""
+    S = sorted(doc_strings(doc, set()))
+    z = lambda s: s.replace('Z', '+00:00', 1)
+    sing = {}
+    for w, r in sing_calls:
+        sing.setdefault(w, r)
+    return {
+        'known': S,
+        'date': [s for s in S if _ok(dt.date.fromisoformat, s)],
+        'time': [s for s in S if _ok(dt.time.fromisoformat, z(s))],
+        'datetime': [s for s in S if _ok(dt.datetime.fromisoformat, z(s))],
+        'numeric': [s for s in S if s.isnumeric()],
+        'float': [s for s in S if _ok(float, s)],
+        'lower': [[s, s.lower()] for s in S],
+        'singularize': [[w, r] for w, r in sing.items()],
+    }
+
+
+def keys_model_domain(doc):
+    """the string model (DW/Model/Strings.lean) is ASCII-cased: keys with cased non-ASCII letters are outside it"""
+    for _p, o in walk_objects(doc):
+        for k in o:
+            for c in k:
+                if ord(c) > 127 and (c.lower() != c or c.upper() != c):
+                    return False
+    return True
+
+
+RESERVED = {'annotations', 'dataclass', 'date', 'datetime', 'time', 'Any', 'List', 'Optional', 'Union', 'JSONWizard',
+            'int', 'str', 'float', 'bool', 'list'}
+
+
+def _plain_ident(s):
+    return s.isascii() and s.isidentifier() and not keyword.iskeyword(s) and not (s.startswith('__') and not s.endswith('__'))
+
+
+def impl_canon(src):
+    lines = scan_lines(src)
+    names = [c[0] for c in lines['classes']]
+    plain = all(_plain_ident(c[0]) and all(_plain_ident(f) for f, _a in c[2]) for c in lines['classes'])
+    out = {'imports': lines['imports'], 'lines': lines['classes'], 'ast': None,
+           'names_ok': plain and len(set(names)) == len(names) and not (set(names) & RESERVED)}
+    if plain:
+        try:
+            a = scan_ast(src)
+        except SyntaxError:
+            a = None
+        if a is not None:
+            out['ast'] = [[c[0], c[1], c[2]] for c in a['classes']]
+            out['ast_imports'] = a['imports']
+            out['all_dataclass'] = all(c[3] for c in a['classes'])
+    return out
+
+
+def model_canon(r, impl):
+    if 'ok' not in r:
+        return r
+    m = r['ok']
+    out = {'imports': m['imports'],
+           'lines': [[c['name'], c['root'], [[f[0], f[2]] for f in c['fields']]] for c in m['classes']],
+           'ast': None, 'names_ok': m['names_ok']}
+    if impl.get('ast') is not None:
+        out['ast'] = [[c['name'], c['root'], [[f[0], f[1]] for f in c['fields']]] for c in m['classes']]
+        out['ast_imports'] = m['imports']
+        out['all_dataclass'] = True
+    return out
+
+
+DEDUP_WITNESS = [{"x": {"p": {"q": 1}}}, {"x": 5}, {"x": {"p": {"r": 1}}}]
+
+
+def probe_dedup():
+    """is the `o in self` test of TypeContainer.append structural (the dataclass-generated __eq__)?  Witness
+    (C19_every_key_has_field_witness): the third element's class differs from the first only below the first level."""
+    src = generate(json.dumps(DEDUP_WITNESS), False, False)
+    return '    r: int' not in src
+
+
+# ----------------------------------------------------------------------------- corpus: minimal documents first
+
+CORPUS = [
+    {"a": 1, "b": "x", "c": None, "d": [1, 2], "e": {"f": True}},
+    [{"a": 1, "b": None}, {"a": "x", "b": 2.5}],
+    {"items": [{"id": 1, "tags": ["a"]}, {"id": 2, "tags": []}], "when": "2021-01-31", "at": "12:30", "ts": "2021-01-31T12:30:00Z"},
+    {"x": [[1, 2], [3]], "y": [], "z": {}},
+    [], {}, [1, "a", None], [[{"a": 1}]],
+    {"k": [{"a": [{"p": 1}, {"p": None}]}, {"a": [{"p": 2}]}]},
+    # known shapes
+    [{"a": 1}, {"b": 2}],
+    DEDUP_WITNESS,
+    {"k": [{"a": [{"p": 1}]}, {"a": [None]}]},
+    {"a": {"x": {"p": 1}}, "b": {"x": {"q": 1}}},
+    {"class": 1}, {"1st": 1}, {"a.b": 1}, {"": 1}, {"None": {"a": 1}}, {"lambda": None},
+    {"list": {"a": 1}, "b": [1]},
+    {"x": [1, {"a": 2}]},
+    {"b": [{"c": "12:30"}, {"c": "2021-01-31"}]},
+    {"a": "½"},
+    {"ﬁeld": 1},
+    {"_name": {"a": 1}, "name": {"b": 2}, "name_": {"c": 3}},
+    {"userId": {"a": 1}, "user_id": {"a": 2}},
+    {"bases": [{"a": 1}], "reanalyses": [{"b": 2}], "theses": [{"c": 1}]},
+    {"reanalyses": [{"b": 2}], "bases": [{"a": 1}], "Reanalyses": [{"c": 2}]},
+]
+
+
+# ----------------------------------------------------------------------------- history: generation after other generations
+
+HISTORY_SCRIPT = r'''
+import json, os, sys
+from dataclass_wizard.wizard_cli.schema import PyCodeGenerator
+jobs = json.loads(sys.stdin.read())
+out = []
+for seq in jobs:
+    r, w = os.pipe()
+    pid = os.fork()
+    if pid == 0:
+        os.close(r)
+        res = []
+        for text, exp, force in seq:
+            try:
+                res.append(PyCodeGenerator(file_contents=text, experimental=exp, force_strings=force).py_code)
+            except Exception as e:
+                res.append('<raised %s>' % type(e).__name__)
+        with os.fdopen(w, 'w') as f:
+            f.write(json.dumps(res))
+        os._exit(0)
+    os.close(w)
+    with os.fdopen(r) as f:
+        out.append(json.loads(f.read()))
+    os.waitpid(pid, 0)
+print(json.dumps(out))
+'''
+
+HISTORY_KEYS_A = ['bases', 'theses', 'diagnoses', 'parentheses', 'synopses', 'prognoses', 'people', 'children', 'matrices', 'oxen']
+HISTORY_KEYS_B = ['reanalyses', 'psychoanalyses', 'meta_analyses', 'items', 'statuses', 'when']
+
+
+def history_docs(rng, n):
+    pairs = []
+    for _ in range(n):
+        a = {k: [{'v': rng.choice([1, 'x', '2021-01-31', None])}] for k in rng.sample(HISTORY_KEYS_A, rng.randint(1, 4))}
+        if rng.random() < 0.5:
+            a['stamp'] = rng.choice(DATETIME_STRS + TIME_STRS)
+        b = {k: [{'w': rng.choice([2, 'y', None])}, {'w': 3}] for k in rng.sample(HISTORY_KEYS_B, rng.randint(1, 3))}
+        if rng.random() < 0.3:
+            b, _prof = gen_doc(rng)
+        fa, fb = rng.choice(FLAGS), rng.choice(FLAGS)
+        pairs.append((a, fa, b, fb))
+    return pairs
+
+
+def run_history(ctx, pairs):
+    """generation of B in a pristine process (a forked child of a process that only imported the library) vs after
+    generating the unrelated A there"""
+    jobs = []
+    for a, fa, b, fb in pairs:
+        tb = [json.dumps(b, ensure_ascii=False), fb[0], fb[1]]
+        ta = [json.dumps(a, ensure_ascii=False), fa[0], fa[1]]
+        jobs.append([tb])
+        jobs.append([ta, tb])
+        jobs.append([ta, ta, tb, tb])
+    env = dict(os.environ, PYTHONPATH=str(C.REPO))
+    p = subprocess.run(['/venv/bin/python', '-c', HISTORY_SCRIPT], input=json.dumps(jobs).encode(), capture_output=True,
+                       env=env, timeout=600, cwd='/tmp')
+    if p.returncode != 0:
+        raise RuntimeError('history subprocess failed: ' + p.stderr.decode()[-800:])
+    outs = json.loads(p.stdout.decode())
+    for n, (a, fa, b, fb) in enumerate(pairs):
+        fresh, after, after2 = outs[3 * n][0], outs[3 * n + 1][1], outs[3 * n + 2]
+        case = {'a': a, 'a_flags': list(fa), 'b': b, 'b_flags': list(fb)}
+        ctx.seen('history', case)
+        if after != fresh or after2[2] != fresh or after2[3] != fresh:
+            ctx.fail('history', case, 'generation of document b differs between a pristine process and one that generated a before',
+                     detail=dict(fresh=fresh[:1500], after=after[:1500]))
+
+
+def replay_history(case):
+    class X:
+        failures = []
+
+        def seen(self, *a, **k):
+            pass
+
+        def fail(self, kind, case, what, key=None, detail=None):
+            self.failures.append(dict(what=what, detail=detail))
+    x = X()
+    run_history(x, [(case['a'], tuple(case['a_flags']), case['b'], tuple(case['b_flags']))])
+    return dict(violated=bool(x.failures), failures=x.failures)
+
+
+# ----------------------------------------------------------------------------- the command line (subprocess)
+
+PRECIOUS = b'# existing output, must survive a failed run\nX = 1\n'
+
+CLI_INPUTS = [
+    ('syntaxError', b'{"a": 1'), ('syntaxError', b'{"a": 1} trailing'), ('syntaxError', b''), ('syntaxError', b"{'a': 1}"),
+    ('syntaxError', b'[1, 2,]'),
+    ('scalarRoot', b'42'), ('scalarRoot', b'"text"'), ('scalarRoot', b'null'), ('scalarRoot', b'true'), ('scalarRoot', b'1.5'),
+    ('unreadable', None),
+    ('valid', b'{"a": 1, "b": [{"c": null}]}'), ('valid', b'[]'),
+]
+
+
+def run_cli(kind, content, flags=()):
+    d = tempfile.mkdtemp(prefix='c19cli_')
+    try:
+        inp = os.path.join(d, 'in.json')
+        out = os.path.join(d, 'out.py')
+        if content is not None:
+            with open(inp, 'wb') as f:
+                f.write(content)
+        with open(out, 'wb') as f:
+            f.write(PRECIOUS)
+        env = dict(os.environ, PYTHONPATH=str(C.REPO))
+        p = subprocess.run(['/venv/bin/python', '-m', 'dataclass_wizard.wizard_cli.cli', 'gs', *flags, inp, out],
+                           capture_output=True, env=env, timeout=120, cwd=d)
+        with open(out, 'rb') as f:
+            after = f.read()
+        return p.returncode, after, (p.stderr.decode('utf-8', 'replace') + p.stdout.decode('utf-8', 'replace'))[-600:]
+    finally:
+        shutil.rmtree(d, ignore_errors=True)
+
+
+def cli_state(after, expected_code=None):
+    if after == PRECIOUS:
+        return 'unchanged'
+    if after == b'':
+        return 'emptied'
+    if expected_code is not None and after.decode('utf-8', 'replace') == expected_code:
+        return 'code'
+    return 'other'
+
+
+def check_cli(ctx, inputs):
+    reqs, pend = [], []
+    trunc = None
+    for kind, content in inputs:
+        case = {'input_kind': kind, 'content': None if content is None else content.decode('utf-8', 'replace')}
+        ctx.seen('cli', case)
+        rc, after, text = run_cli(kind, content)
+        code = None
+        if kind == 'valid':
+            code = generate(content.decode(), False, False)
+        st = cli_state(after, code)
+        if kind == 'valid':
+            if rc != 0 or st != 'code':
+                ctx.fail('cli', case, f'valid input: exit status {rc}, output file {st}', detail=dict(output=text))
+        else:
+            if rc == 0:
+                ctx.fail('cli', case, f'invalid input ({kind}) but exit status 0', detail=dict(output=text))
+            if st != 'unchanged':
+                key = 'gs-output-truncated-early' if (st == 'emptied' and kind in ('syntaxError', 'scalarRoot')) else None
+                _fail(ctx, 'cli', case, f'invalid input ({kind}): exit status {rc}, but the pre-existing output file was {st}',
+                      key=key, detail=dict(output=text))
+            if kind == 'syntaxError' and trunc is None:
+                trunc = (st == 'emptied')
+        pend.append((case, {'exit': min(rc, 2) if rc >= 0 else 2, 'out': st}, kind))
+    trunc = bool(trunc)
+    ctx.notes['probed_output_truncated_early'] = trunc
+    if ctx.model_available:
+        outs = ctx.driver.run([{'op': 'c19', 'cli': k, 'trunc': trunc} for _c, _i, k in pend])
+        for (case, impl, _k), o in zip(pend, outs):
+            ctx.agree('cli:model', case, impl, o.get('r', {'driver_error': o.get('err')}))
 
 
 # ----------------------------------------------------------------------------- run
 
+def eval_doc(ctx, tm, rec, doc, prof, dedup, reqs, pend, kind='gen'):
+    doc_text = json.dumps(doc, ensure_ascii=False)
+    in_domain = keys_model_domain(doc)
+    for exp, force in FLAGS:
+        case = {'doc': doc, 'experimental': exp, 'force_strings': force, 'profile': prof}
+        ctx.seen(kind, case)
+        rec.take()
+        src = oracle(ctx, tm, case, doc, doc_text, exp, force)
+        calls = rec.take()
+        if src is None:
+            continue
+        # the generator ran twice: the second half of the calls must repeat the first
+        half = len(calls) // 2
+        if calls[:half] != calls[half:]:
+            ctx.fail('gen:singularize', case, 'English.singularize answered differently in the second generation of the same document',
+                     detail=dict(first=calls[:half][:20], second=calls[half:][:20]))
+        for w, r in calls[:half]:
+            again = rec.real(w)
+            if again != r:
+                ctx.fail('gen:singularize', case, f'English.singularize({w!r}) gave {r!r} inside the generator and {again!r} when '
+                         'called again: it is not a function of the word')
+                break
+        if not in_domain:
+            ctx.count('model_skipped_nonascii_cased_key')
+            continue
+        if ctx.model_available:
+            reqs.append({'op': 'c19', 'doc': M.enc_j(doc), 'experimental': exp, 'force_strings': force, 'dedup': dedup,
+                         'std': std_tables(doc, calls[:half])})
+            pend.append((case, impl_canon(src)))
+
+
 def run(ctx: C.Ctx):
+    import time
     rng = ctx.rng
     ctx.rule = ('JSON documents from templates (objects/arrays to depth 4; arrays of sibling objects with nulls, missing keys, '
                 'mixed kinds; empty containers; date/time/datetime/number/bool-looking and near-miss strings; keys over identifiers, '
-                'keywords, digits-first, punctuation, unicode, case variants, underscore variants, names colliding with Data/Container, '
-                'repeated names at different paths — each unusual shape enabled per document with a small probability) x 4 flag '
-                'combinations. Non-trivial = distinct (document, flags).')
-    n = ctx.quick(500, 6000)
+                'keywords, digits-first, punctuation, unicode, case variants, underscore variants, inflector words, names colliding '
+                'with Data/Container/typing names, repeated names at different paths — each unusual shape enabled per document with '
+                'a small probability so that most documents are ones the unchanged generator handles) x 4 flag combinations: source '
+                'vs Lean module AST (ast + line scan), import as a real module, root class loads every source element, inferred '
+                'types, every key has a field, generation twice; A-then-B vs pristine B in forked children of a fresh process; the '
+                'CLI as a subprocess on temp files with a pre-existing output. Non-trivial = distinct (document, flags).')
+    ctx.trusted += [
+        'stdlib string tests (date/time/datetime.fromisoformat, str.isnumeric, float(), str.lower) and English.singularize are '
+        'table-backed in the model: tables computed with the stdlib / recorded from the real calls, a table miss voids nothing '
+        '(it is reported as a disagreement)',
+        'model domain: keys whose non-ASCII letters are uncased (string model is ASCII-cased); other keys are oracle-only',
+        '"valid Python that imports" and "from_dict loads the document" are runtime facts established by the oracle on every case, '
+        'not by a theorem',
+    ]
+    n = ctx.quick(900, 16000)
+    budget = ctx.quick(34, 430)
+    t0 = time.time()
     tm = TempModules()
     rec = SingRecorder()
     rec.install()
@@ -738,42 +1074,25 @@ def run(ctx: C.Ctx):
         dedup = probe_dedup()
         rec.take()
         ctx.notes['probed_dedup_by_eq'] = dedup
-        for i in range(n):
+        idx = 0
+        for doc in CORPUS:
+            i, idx = idx, idx + 1
             if ctx.done(i):
+                break
+            if not ctx.begin_case(i):
+                continue
+            eval_doc(ctx, tm, rec, doc, ['corpus'], dedup, reqs, pend)
+        for j in range(n):
+            i, idx = idx, idx + 1
+            if ctx.done(i) or (ctx.only is None and time.time() - t0 > budget):
                 break
             doc, prof = gen_doc(rng)
             if not ctx.begin_case(i):
                 continue
-            doc_text = json.dumps(doc, ensure_ascii=False)
-            in_domain = keys_model_domain(doc)
-            for exp, force in FLAGS:
-                case = {'doc': doc, 'experimental': exp, 'force_strings': force, 'profile': prof}
-                ctx.seen('gen', case)
-                rec.take()
-                src = oracle(ctx, tm, case, doc, doc_text, exp, force)
-                calls = rec.take()
-                if src is None:
-                    continue
-                # the generator ran twice: the second half of the calls must repeat the first
-                half = len(calls) // 2
-                if calls[:half] != calls[half:]:
-                    ctx.fail('gen:singularize', case, 'English.singularize answered differently in the second generation of the '
-                             'same document', detail=dict(first=calls[:half][:20], second=calls[half:][:20]))
-                for w, r in calls[:half]:
-                    again = rec.real(w)
-                    if again != r:
-                        ctx.fail('gen:singularize', case, f'English.singularize({w!r}) gave {r!r} inside the generator and {again!r} when '
-                                 'called again: it is not a function of the word')
-                        break
-                if not in_domain:
-                    ctx.count('model_skipped_nonascii_cased_key')
-                    continue
-                if ctx.model_available:
-                    reqs.append({'op': 'c19', 'doc': M.enc_j(doc), 'experimental': exp, 'force_strings': force, 'dedup': dedup,
-                                 'std': std_tables(doc, calls[:half])})
-                    pend.append((case, impl_canon(src)))
+            eval_doc(ctx, tm, rec, doc, prof, dedup, reqs, pend)
         if rec.conflicts:
             w, a, b = rec.conflicts[0]
+            ctx.current = None
             ctx.fail('gen:singularize', {'word': w}, f'English.singularize({w!r}) returned {a!r} earlier in this process and {b!r} later '
                      f'({len(rec.conflicts)} such words): generation depends on earlier runs')
     finally:
@@ -787,7 +1106,36 @@ def run(ctx: C.Ctx):
                 continue
             r = o['r']
             if r.get('stdmiss'):
-                # the model asked the tables something the generator did not: its naming logic diverged
+                # the model asked the tables something the generator did not: its naming / typing logic diverged
                 ctx.agree('gen:model', case, impl, {'stdmiss': True})
                 continue
             ctx.agree('gen:model', case, impl, model_canon(r, impl))
+        kw = ctx.driver.run([{'op': 'c19', 'keywords': True}])[0].get('r')
+        ctx.agree('keywords', 'keyword.kwlist', sorted(keyword.kwlist), sorted(kw or []))
+    if ctx.only is None:
+        ctx.current = None
+        run_history(ctx, history_docs(rng, ctx.quick(10, 120)))
+        check_cli(ctx, CLI_INPUTS if ctx.tier != 'quick' else CLI_INPUTS[:1] + CLI_INPUTS[5:7] + CLI_INPUTS[10:12])
+
+
+def replay(obj):
+    C.setup_repo_path()
+    kind, case = obj['kind'], obj['case']
+    if kind == 'history':
+        return replay_history(case)
+    if kind == 'cli':
+        content = None if case['content'] is None else case['content'].encode()
+        rc, after, text = run_cli(case['input_kind'], content)
+        st = cli_state(after)
+        bad = (case['input_kind'] != 'valid') and (rc == 0 or st != 'unchanged')
+        return dict(violated=bad, exit=rc, output_file=st, demanded='exit != 0 and output file unchanged', text=text)
+    if kind.startswith('gen') and 'doc' in case:
+        ctx = C.Ctx('C19', 'quick', 0)
+        ctx.model_available = False
+        tm = TempModules()
+        try:
+            oracle(ctx, tm, case, case['doc'], json.dumps(case['doc'], ensure_ascii=False), case['experimental'], case['force_strings'])
+        finally:
+            tm.close()
+        return dict(violated=bool(ctx.failures), failures=[dict(kind=f['kind'], what=f['what'], key=f['key']) for f in ctx.failures])
+    return dict(violated=False, note='unknown kind')
